@@ -4,7 +4,8 @@
 #include "src/core/Node.cpp"
 #include <cstdio>
 using namespace ephemeralnet;
-int main() {
+int main(int argc, char** argv) {
+    const std::string scenario = argc > 1 ? argv[1] : "chunk";
     Config config{};
     config.handshake_pow_difficulty = 8;
     config.identity_seed = 21u;
@@ -17,6 +18,34 @@ int main() {
     const auto session = node.session_key(peer);
     if (!session.has_value()) { std::printf("no session key\n"); return 2; }
 
+    if (scenario == "endpoint") {
+        // parse_endpoint is applied to addresses announced by peers (deliver_manifest / dispatch_pending_fetch): hostile port texts
+        const char* hostile[] = {"h:", ":1", "h:abc", "h:99999999999999999999999999", "h:184467440737095516159", "h:-1", "h: 7", "h:0x10", "::", "h:70000"};
+        for (const char* a : hostile) {
+            try { (void)parse_endpoint(a); }
+            catch (const std::exception& e) { std::printf("REPRODUCED: parse_endpoint(\"%s\") throws %s (\"%s\"); it runs on peer-announced addresses with no handler up to the session thread\n", a, typeid(e).name(), e.what()); return 1; }
+        }
+        std::printf("parse_endpoint handled every hostile address without throwing\n");
+        return 0;
+    }
+    if (scenario == "manifest") {
+        const char* uris[] = {"", "eph://", "eph://!!!!", "eph://AAAA", "eph://QUJD", "not-a-uri", "eph://////"};
+        for (const char* u : uris) {
+            try {
+                (void)node.ingest_manifest(u);
+                (void)node.receive_chunk(u, ChunkData{1, 2, 3});
+                (void)node.request_chunk(peer, "", 0, u);
+                protocol::Message am{}; am.version = protocol::kCurrentMessageVersion; am.type = protocol::MessageType::Announce;
+                protocol::AnnouncePayload ap{}; ap.chunk_id[0] = 1; ap.peer_id = peer; ap.manifest_uri = u; ap.ttl = std::chrono::seconds(60); ap.endpoint = "127.0.0.1:1";
+                am.payload = ap;
+                network::TransportMessage tm0{}; tm0.peer_id = peer;
+                tm0.payload = protocol::encode_signed(am, std::span<const std::uint8_t>(session->data(), session->size()));
+                node.handle_transport_message(tm0);
+            } catch (const std::exception& e) { std::printf("REPRODUCED: manifest text \"%s\" makes %s escape the node (\"%s\")\n", u, typeid(e).name(), e.what()); return 1; }
+        }
+        std::printf("malformed manifest texts were rejected without an escaping exception\n");
+        return 0;
+    }
     protocol::Manifest m{};
     m.chunk_id[0] = 0x35;
     m.threshold = 2; m.total_shares = 2;
